@@ -1,4 +1,4 @@
-import Proofs.Damage
+import Proofs.Insertion
 /-!
 # C03 — the integrity check is sound
 
@@ -59,6 +59,59 @@ theorem C03_unmarshal_rejects (m : Msg) (X Y : Bytes) (a b : UInt8) (ht : framin
   unfold Msg.unmarshal
   rw [C03_substitution_rejected m X Y a b ht hab hvalid]
   rfl
+
+/-- the length of the first field of a string (up to its first delimiter) -/
+def firstFieldLen (d : Bytes) : Nat := (indexByte SOH d).getD d.length
+
+theorem shape_f0_len {bs bl cs d : Bytes} (s : Shape bs bl cs d) : s.f0.length = firstFieldLen d := by
+  unfold firstFieldLen
+  have e : d = s.f0 ++ SOH :: (s.f1 ++ SOH :: s.B ++ (cs ++ EQ :: s.vl ++ [SOH])) := by
+    have := s.eq
+    simpa [List.append_assoc] using this
+  have hi : indexByte SOH d = some s.f0.length := by
+    have := indexByte_field s.f0 (s.f1 ++ SOH :: s.B ++ (cs ++ EQ :: s.vl ++ [SOH])) s.f0_soh
+    exact (congrArg (indexByte SOH) e).trans this
+  rw [hi]; rfl
+
+/-- **insertion**: a byte inserted anywhere into an integrity-correct string is rejected — unless it is a NUL inside
+    the value of the first (BeginString) field, which changes neither the sum nor the counted length -/
+theorem C03_insertion_rejected (m : Msg) (X Y : Bytes) (x : UInt8) (ht : framingTagsOK m)
+    (hvalid : integrityOK m.bsTag m.blTag m.csTag (X ++ Y) = true)
+    (hx : x ≠ 0 ∨ X.length ≤ m.bsTag.length ∨ firstFieldLen (X ++ Y) < X.length) :
+    validateRaw m (X ++ x :: Y) = .err := by
+  obtain ⟨_, _, t3, e1, e2, _⟩ := ht
+  cases h : validateRaw m (X ++ x :: Y) with
+  | err => rfl
+  | panic => exact absurd h (validateRaw_ne_panic _ _)
+  | ok u =>
+    exfalso
+    have hi := C03_sound m _ ⟨‹_›, ‹_›, t3, e1, e2, ‹_›⟩ h
+    obtain ⟨hx0, s, hlo, hhi⟩ := insertion_char _ _ _ X Y x t3 e1 e2 hvalid hi
+    rw [shape_f0_len s] at hhi
+    rcases hx with hx | hx | hx
+    · exact hx hx0
+    · omega
+    · omega
+
+/-- **deletion**: deleting a byte from an integrity-correct string is rejected — unless it is a NUL inside the value
+    of the first field (the mirror image of the insertion case) -/
+theorem C03_deletion_rejected (m : Msg) (X Y : Bytes) (x : UInt8) (ht : framingTagsOK m)
+    (hvalid : integrityOK m.bsTag m.blTag m.csTag (X ++ x :: Y) = true)
+    (hx : x ≠ 0 ∨ X.length ≤ m.bsTag.length ∨ firstFieldLen (X ++ Y) < X.length) :
+    validateRaw m (X ++ Y) = .err := by
+  obtain ⟨_, _, t3, e1, e2, _⟩ := ht
+  cases h : validateRaw m (X ++ Y) with
+  | err => rfl
+  | panic => exact absurd h (validateRaw_ne_panic _ _)
+  | ok u =>
+    exfalso
+    have hi := C03_sound m _ ⟨‹_›, ‹_›, t3, e1, e2, ‹_›⟩ h
+    obtain ⟨hx0, s, hlo, hhi⟩ := insertion_char _ _ _ X Y x t3 e1 e2 hi hvalid
+    rw [shape_f0_len s] at hhi
+    rcases hx with hx | hx | hx
+    · exact hx hx0
+    · omega
+    · omega
 
 /-- insertion and deletion are *not* always detectable: a NUL byte inside the BeginString value changes neither
     the byte sum nor the counted length (known finding F-C03-nul-beginstring; inherent to the statement) -/
